@@ -65,12 +65,24 @@ def run(chk):
             mk = lambda: Custom(Uc, n_basis_modes=nb)
         case = {"basis": kind, "n_basis_modes": nb, "X": X.tolist(), "low_rank": lowrank}
         try:
+            # a bystander of the same class, fitted on other data of the same shape: whatever it is asked later must not show up in b
+            by = None
+            if kind != "Custom":
+                by = mk()
+                impl.quiet(by.fit, X + rng.integers(-8, 9, size=X.shape) / 2.0)
             b = mk()
             impl.quiet(b.fit, X) if kind != "Custom" else b.fit()
         except Exception as e:
             chk.count("fit-rejected:" + type(e).__name__)
             continue
         avail = int(b.n_basis_modes)
+        if by is not None:
+            try:
+                for kb in range(1, int(by.n_basis_modes) + 1):
+                    by.matrix_representation(n_basis_modes=kb), by.matrix_inverse(n_basis_modes=kb)
+                by.matrix_representation(), by.matrix_inverse()
+            except Exception:
+                pass
         full = np.array(b.matrix_representation())
         chk.case(case, nontrivial=avail > 1)
         chk.count("basis:" + kind)
